@@ -58,11 +58,21 @@ def sites(prog):
 def perturb(prog, muts):
     prog = copy.deepcopy(prog)
     applied = []
-    for k1, k2 in muts:
+    for mut in muts:
+        k1, k2 = mut[0], mut[1]
         ss = sites(prog)
         if not ss:
             break
-        kind, path = ss[k1 % len(ss)]
+        if len(mut) > 2:
+            # absolute site index (systematic tier)
+            ss = [ss[k1 % len(ss)]]
+            k1 = 0
+        # first the kind of perturbation, then one of its sites: call-related perturbations are as
+        # likely as index perturbations although they have far fewer sites
+        kinds = sorted({k for k, _ in ss})
+        kind = kinds[k1 % len(kinds)]
+        of_kind = [x for x in ss if x[0] == kind]
+        kind, path = of_kind[(k1 // len(kinds) + k2) % len(of_kind)]
         d = 1 if k2 % 2 == 0 else -1
         if kind == "idx":
             stmts, i, _, j = path
@@ -225,7 +235,23 @@ def case_strategy():
     )
 
 
+def systematic_cases():
+    """every perturbation site of every template program x 4 parameter variants"""
+    from ..gen.templates import TEMPLATES
+
+    for t in TEMPLATES:
+        for tk in (0, 1, 2):
+            prog = t(tk)
+            n = len(sites(prog))
+            for i in range(n):
+                for k2 in range(4):
+                    yield {"prog": prog, "muts": [[i, k2, "abs"]], "pick": 3, "layout": 1, "cfg": [3, 5, 1, 2, 4]}
+
+
 def run(ctx):
     global CTX
     CTX = ctx
+    from ..common import run_systematic
+
+    run_systematic(ctx, systematic_cases(), guarded(ctx, check_case), keep_one_in=2 if ctx.tier == "quick" else 1, label="template-perturbations")
     run_cases(ctx, case_strategy(), guarded(ctx, check_case), ctx.budget(2000, 60000))
